@@ -123,6 +123,20 @@ def check_positions(prop: str, res: Result, repo: Repo, cas: List[ClassAnalysis]
                     res.ok(rule, {"site": f"{ca.ci.module.relpath}:{s.line} {label}", "goal": f"{pos!r} <= t"})
                 else:
                     res.fail(rule, finding(prop, rule, fn, s.node, f"position {pos!r} is not provably <= the evaluated index (reads a later candle); facts: {describe_facts(facts)}"))
+        for s in ca.sites("candles-window"):
+            lo, hi = s.data["lo"], s.data["hi"]
+            facts, extra = site_context(ca, s)
+            label = f"window(candles[{lo!r}:{hi!r}])"
+            if "R-WRAP" in want:
+                if prove_ge0(lo, facts, extra):
+                    res.ok("R-WRAP", {"site": f"{ca.ci.module.relpath}:{s.line} {label}", "facts": describe_facts(facts)}, nontrivial=f"{ca.ci.name}:{label}")
+                else:
+                    res.fail("R-WRAP", finding(prop, "R-WRAP", fn, s.node, f"the slice start {lo!r} is not provably >= 0 (a negative start counts from the newest candle); facts: {describe_facts(facts)}"))
+            if "R-CAUSAL" in want:
+                if prove_ge0(T + ONE - hi, facts, extra):
+                    res.ok("R-CAUSAL", {"site": f"{ca.ci.module.relpath}:{s.line} {label}", "goal": f"{hi!r} - 1 <= t"})
+                else:
+                    res.fail("R-CAUSAL", finding(prop, "R-CAUSAL", fn, s.node, f"the slice end {hi!r} is not provably <= the evaluated index + 1 (the window contains later candles); facts: {describe_facts(facts)}"))
         if "R-CAUSAL" in want:
             for kind, msg in (
                 ("len-candles", "len(candles) used inside a calculation: the value depends on how many candles follow the evaluated one"),
